@@ -712,38 +712,58 @@ pub fn contains_skipped_variant(ty: &Ty, v: &Val) -> bool {
 /// `D_hi`: nesting depth of heap containers in the value (every heap container counts one level;
 /// siblings do not add).
 pub fn depth_hi(ty: &Ty, v: &Val) -> u32 {
+	depth_impl(ty, v, false)
+}
+
+/// `D_lo`: the same count without the leaf containers the crate is documented (and tested: its own
+/// suite decodes `Vec<Vec<Vec<Vec<u8>>>>` at limit 3) not to count: vectors, deques, heaps and byte
+/// buffers of bulk-read primitives (integers and floats), strings and bit sequences. Every other
+/// heap container — lists, tree maps and sets, boxes and shared pointers, vectors of anything that is
+/// not a bulk-read primitive — is a level the depth limit must see.
+pub fn depth_lo(ty: &Ty, v: &Val) -> u32 {
+	depth_impl(ty, v, true)
+}
+
+fn uncounted_leaf(kind: SeqKind, elem: &Ty) -> bool {
+	matches!(kind, SeqKind::Vec | SeqKind::VecDeque | SeqKind::BinaryHeap | SeqKind::Slice | SeqKind::Bytes) &&
+		matches!(elem, Ty::U(_) | Ty::I(_) | Ty::F32 | Ty::F64)
+}
+
+fn depth_impl(ty: &Ty, v: &Val, counted: bool) -> u32 {
 	match (ty, v) {
-		(Ty::Ref(n), _) => depth_hi(&lookup(n), v),
+		(Ty::Ref(n), _) => depth_impl(&lookup(n), v, counted),
+		(Ty::Seq { kind, elem, .. }, _) if counted && uncounted_leaf(*kind, elem) => 0,
+		(Ty::Str | Ty::Bits { .. }, _) if counted => 0,
 		(Ty::Seq { elem, .. }, Val::Seq(items)) =>
-			1 + items.iter().map(|x| depth_hi(elem, x)).max().unwrap_or(0),
+			1 + items.iter().map(|x| depth_impl(elem, x, counted)).max().unwrap_or(0),
 		(Ty::Seq { elem, .. }, Val::Repeat(n, x)) =>
-			1 + if *n > 0 { depth_hi(elem, x) } else { 0 },
+			1 + if *n > 0 { depth_impl(elem, x, counted) } else { 0 },
 		(Ty::Seq { .. }, _) => 1,
 		(Ty::Str | Ty::Bits { .. }, _) => 1,
 		(Ty::Map { k, v: vt, .. }, Val::Map(m)) =>
-			1 + m.iter().map(|(a, b)| depth_hi(k, a).max(depth_hi(vt, b))).max().unwrap_or(0),
+			1 + m.iter().map(|(a, b)| depth_impl(k, a, counted).max(depth_impl(vt, b, counted))).max().unwrap_or(0),
 		(Ty::Array(elem, _), Val::Seq(items)) =>
-			items.iter().map(|x| depth_hi(elem, x)).max().unwrap_or(0),
+			items.iter().map(|x| depth_impl(elem, x, counted)).max().unwrap_or(0),
 		(Ty::Array(elem, _), Val::Repeat(n, x)) =>
 			if *n > 0 {
-				depth_hi(elem, x)
+				depth_impl(elem, x, counted)
 			} else {
 				0
 			},
-		(Ty::Option(t), Val::Opt(Some(x))) => depth_hi(t, x),
-		(Ty::Result(t, _), Val::Res(Ok(x))) => depth_hi(t, x),
-		(Ty::Result(_, t), Val::Res(Err(x))) => depth_hi(t, x),
+		(Ty::Option(t), Val::Opt(Some(x))) => depth_impl(t, x, counted),
+		(Ty::Result(t, _), Val::Res(Ok(x))) => depth_impl(t, x, counted),
+		(Ty::Result(_, t), Val::Res(Err(x))) => depth_impl(t, x, counted),
 		(Ty::Tuple(ts), Val::Tuple(xs)) =>
-			ts.iter().zip(xs).map(|(t, x)| depth_hi(t, x)).max().unwrap_or(0),
+			ts.iter().zip(xs).map(|(t, x)| depth_impl(t, x, counted)).max().unwrap_or(0),
 		(Ty::Range(t) | Ty::RangeIncl(t), Val::Tuple(xs)) =>
-			xs.iter().map(|x| depth_hi(t, x)).max().unwrap_or(0),
+			xs.iter().map(|x| depth_impl(t, x, counted)).max().unwrap_or(0),
 		(Ty::Holder { kind, inner, .. }, _) =>
-			depth_hi(inner, v) + u32::from(*kind != HolderKind::Ref),
+			depth_impl(inner, v, counted) + u32::from(*kind != HolderKind::Ref),
 		(Ty::Struct { fields, .. }, Val::Tuple(xs)) => fields
 			.iter()
 			.zip(xs)
 			.filter(|(f, _)| !f.skip)
-			.map(|(f, x)| depth_hi(&f.ty, x))
+			.map(|(f, x)| depth_impl(&f.ty, x, counted))
 			.max()
 			.unwrap_or(0),
 		(Ty::Enum { variants, .. }, Val::Variant(i, xs)) => variants[*i]
@@ -751,7 +771,7 @@ pub fn depth_hi(ty: &Ty, v: &Val) -> u32 {
 			.iter()
 			.zip(xs)
 			.filter(|(f, _)| !f.skip)
-			.map(|(f, x)| depth_hi(&f.ty, x))
+			.map(|(f, x)| depth_impl(&f.ty, x, counted))
 			.max()
 			.unwrap_or(0),
 		_ => 0,
